@@ -81,7 +81,7 @@ def body(run):
         kshape = rng.choice([(1, 1), (3, 3), (1, 3), (5, 3), (3, 5), (5, 5), (7, 3)])
         if model == 'gain-offset' and kshape == (1, 1):
             kshape = (3, 1)
-        ups = rng.choice(['cubic_spline', 'bilinear', 'nearest', 'cubic_spline'])
+        ups = ['cubic_spline', 'bilinear', 'nearest', 'average', 'cubic_spline', 'average', 'bilinear', 'nearest', 'cubic_spline', 'average'][k % 10]       # (average when up-sampling: the mean of the <= 2 x 2 parameter pixels a source pixel overlaps)
         sm = fz.src_mask(rng, g.src_shape, rng.choice(['none', 'border', 'holes', 'none']))
         pair = fz.make_pair(run.work, g, rng, smask=sm, tag='b')
         kw = dict(model=model, kernel_shape=kshape, proc_crs='auto', threads=1, model_config=dict(r2_inpaint_thresh=None, upsampling=ups))
@@ -101,7 +101,8 @@ def body(run):
                 raise
             dist['error:' + type(ex).__name__] = dist.get('error:' + type(ex).__name__, 0) + 1
             continue
-        rows, cols, ratio = block_edges(pair['src_fn'], pair['ref_fn'], 'auto', utils.overlap_for_kernel(kshape), mbm)
+        # (the non-overlapping output blocks do not depend on the overlap: asked for with overlap 0, independently of the code's own overlap rule)
+        rows, cols, ratio = block_edges(pair['src_fn'], pair['ref_fn'], 'auto', (0, 0), mbm)
         nblocks = (len(rows) + 1) * (len(cols) + 1)
         desc = dict(geom=g.describe(), aligned=aligned, model=model, kernel_shape=list(kshape), upsampling=ups, max_block_mem=mbm, blocks=nblocks,
                     proc_crs=one['proc_crs'])
@@ -144,7 +145,7 @@ def body(run):
             elif reach.shape == a.shape[1:]:
                 bad_px &= ~reach[None]
         if bad_px.any():
-            if ups in ('bilinear', 'nearest') or one['proc_crs'] == 'src' or ratio <= 1.0:
+            if ups in ('bilinear', 'nearest', 'average') or one['proc_crs'] == 'src' or ratio <= 1.0:
                 problems['corrected image'] = fz.first_diff(np.where(bad_px, a, 0), np.where(bad_px, b, 0))
             else:
                 lim = math.ceil(ratio) + 1
@@ -173,7 +174,10 @@ def body(run):
                 # the same artefact inside a block's overlap ring (e.g. next to a hole) never reaches the parameter mask: ask directly
                 # whether some block sees a processing pixel valid that the whole-window down-sampling sees invalid, or vice versa
                 from harness import impl_e2e as e2e
-                sl = e2e.block_x_validity_diffs(pair['src_fn'], pair['ref_fn'], mbm, kshape)
+                try:
+                    sl = e2e.block_x_validity_diffs(pair['src_fn'], pair['ref_fn'], mbm, kshape, overlap=(math.ceil(kshape[0] / 2), math.ceil(kshape[1] / 2)))
+                except Exception:       # (the classifier must not hide the difference it is asked about)
+                    sl = []
                 if sl:
                     reach_r, reach_c = kshape[0] // 2 + 2, kshape[1] // 2 + 2
                     near = np.zeros(pa.shape[1:], bool)
